@@ -683,10 +683,14 @@ Definition parse_lambda (n : nat) (ts : list tok) : res (argval * list tok) :=
     end
   | TLParen :: r =>
     do pr <- parse_params n r;;
-    match snd pr with
-    | TRParen :: TArrow :: r1 =>
-      do er <- pbp n 1%nat r1;; Ok (AVLambda (fst pr) (fst er), snd er)
-    | _ => syntax_error
+    match fst pr with
+    | [] => syntax_error                 (* expected at least one arrow function parameter *)
+    | _ =>
+      match snd pr with
+      | TRParen :: TArrow :: r1 =>
+        do er <- pbp n 1%nat r1;; Ok (AVLambda (fst pr) (fst er), snd er)
+      | _ => syntax_error
+      end
     end
   | _ => PyExc AssertionError            (* assert token.type_ == TokenType.LPAREN *)
   end.
